@@ -52,6 +52,12 @@ theorem C08_src_halving (f : List Int) (t : Int) (hf : f ≠ []) (hnext : 0 < f.
     AC.Gen.Program.heuristicHalvingSuggest f t = some ((suggestHalving f t).getD []) :=
   AC.HeurTie.halving_tie f t hf hnext ht
 
+/-- the translated `Approximation.Suggest` on a sorted protosequence returns the model's suggestion (the
+    two-pointer scan; never panics, never out of loop fuel) -/
+theorem C08_src_approximation (f : List Int) (t : Int) (hs : f.Pairwise (· ≤ ·)) :
+    AC.Gen.Program.heuristicApproximationSuggest f t = suggestApprox f t :=
+  AC.HeurTie.approx_tie f t hs
+
 /-- the translated strategies `binary`, `co_binary`, `dichotomic` of contfrac.go propose exactly the
     model's k (every non-negative n) -/
 theorem C08_src_strategies (n : Int) (hn : 0 ≤ n) :
